@@ -6,14 +6,20 @@
 // exported antispam API with sequential histories (explicit Maintenance()
 // rounds, synthetic event times) against the counter mechanism described in
 // pipeline/antispam/README.md, and with concurrent bursts checked by
-// count-based claims. See NOTES.md.
+// count-based claims. Part A.live drives antispam histories through a started
+// pipeline whose own maintenance goroutine does the rounds (logical time =
+// wake-ups of that goroutine); Part A.conc pushes one record set through In
+// from 2..8 goroutines and compares with the sequential run and the reference.
+// See NOTES.md.
 package main
 
 import (
 	"encoding/json"
 	"fmt"
 	"math/rand"
+	"os"
 	"sort"
+	"strings"
 	"time"
 
 	"github.com/ozontech/file.d/logger"
@@ -56,6 +62,10 @@ func childMain(raw json.RawMessage, io *core.ChildIO) (any, error) {
 			runBSeq(genBCase(r, bFamilies[i%len(bFamilies)]), col, i)
 		case "Bconc":
 			runBConc(genCCase(r), col, i)
+		case "Alive":
+			runLCase(genLCase(r, i), col, i)
+		case "Aconc":
+			runKCase(genKCase(r), col, i)
 		}
 		if col.HarnessError != "" {
 			col.HarnessError = fmt.Sprintf("%s case %d: %s", in.Part, i, col.HarnessError)
@@ -72,10 +82,13 @@ func main() {
 
 func run(c *core.Ctx) {
 	c.SetRule("Part A: one case = one real pipeline (decoder json|raw|cri, pool kind, max_event_size derived from a pivot record, cut-off on/off, mark field, antispam off/threshold/exceptions/rules, source_name_meta_field, saved offsets; sources distinct, or several source ids under one source name, or one id under changing names) fed 20-60 records (lengths max-1..max+2 with/without line feed, blank-tailed and garbage-tailed JSON, multi-byte/escape/control/invalid-UTF-8 text, empty and broken records) through a reused input buffer; fingerprint = decoder x record shape x cut x line feed x mark x meta x length relative to the limit, counted only for delivered events that compared equal; plus per antispam case sources mode x number of antispam keys x threshold x bucketed spam refusals / records of name-sharing ids / records accepted while a namesake is banned. " +
-		"Part B: one case = one Antispammer with a generated configuration and a history of IsSpam calls and explicit Maintenance() rounds (bursts around the threshold, silences of unbanIterations-1..+2 rounds, trickles, interleaved sources, event-time gaps, new-source flags), or one concurrent burst; fingerprint = family x threshold x unbanIterations x bucketed numbers of bans/unbans/probes after silence/residue re-bans/new-source/gap/free/blocked records.")
+		"Part B: one case = one Antispammer with a generated configuration and a history of IsSpam calls and explicit Maintenance() rounds (bursts around the threshold, silences of unbanIterations-1..+2 rounds, trickles, interleaved sources, event-time gaps, new-source flags), or one concurrent burst; fingerprint = family x threshold x unbanIterations x bucketed numbers of bans/unbans/probes after silence/residue re-bans/new-source/gap/free/blocked records. " +
+		"Part A.live: one case = one started pipeline with an antispam maintenance interval of 1-2 ms (decoder, threshold, quiet-phase mode silent|self-spam|other-spam|blocked-traffic|size-refused|heartbeat, early probe, extra rounds): ban a source, let unbanIterations+1 or more complete rounds of the pipeline's own maintenance goroutine pass in which nothing is admitted, probe; fingerprint = mode x decoder x threshold x interval x early probe x ban order x rounds. " +
+		"Part A.conc: one case = one set of tagged records (oversize and in-limit mixed, decoder, pool, capacity, max_event_size, cut-off, mark) pushed through In sequentially and from G=2..8 goroutines with own buffers and source ids; fingerprint = decoder x record shape x cut x line feed x mark x meta x length relative to the limit, and decoder x G x capacity x max_event_size x pool.")
 	c.Assume("pipeline/README.md, pipeline/antispam/README.md and cfg/matchrule/README.md are the specification; where they leave a choice every reading is accepted (see NOTES.md)")
 	c.Assume("encoding of events at the output is compared with an own RFC 8259 reader (byte-exact strings); decoders other than json/raw/cri are C12's subject")
-	c.Assume("the binary is built without -race: the concurrent clause checks counts only")
+	c.Assume("the binary is built without -race: the concurrent clauses check counts (B.conc) and events / decisions (A.conc) only")
+	c.Assume("A.live: a wake-up of the pipeline's antispam maintenance goroutine (tick observer, build tag verif) is one maintenance interval; the lines of the antispam logger tell which rounds Maintenance() ran in")
 
 	type job struct {
 		part  string
@@ -92,9 +105,25 @@ func run(c *core.Ctx) {
 			jobs = append(jobs, job{part, s, n})
 		}
 	}
+	// development aid: C20_PARTS=Alive,Aconc runs only the named parts (the
+	// floors of the other parts are then not demanded)
+	only := map[string]bool{}
+	for _, p := range strings.Split(os.Getenv("C20_PARTS"), ",") {
+		if p != "" {
+			only[p] = true
+		}
+	}
+	splitAll := split
+	split = func(part string, total, chunk int) {
+		if len(only) == 0 || only[part] {
+			splitAll(part, total, chunk)
+		}
+	}
 	split("A", c.N(24000, 540000), 300)
 	split("Bseq", c.N(120000, 2700000), 3000)
 	split("Bconc", c.N(6400, 144000), 200)
+	split("Alive", c.N(960, 12800), 40)
+	split("Aconc", c.N(800, 16000), 50)
 
 	results := make([]*collector, len(jobs))
 	core.ParallelFor(len(jobs), 16, func(j int) {
@@ -162,7 +191,7 @@ func run(c *core.Ctx) {
 			if m, ok := s.(map[string]any); ok {
 				part, _ = m["part"].(string)
 			}
-			if sampled[part] < map[string]int{"A": 4, "B.seq": 2, "B.conc": 2}[part] {
+			if sampled[part] < map[string]int{"A": 3, "B.seq": 1, "B.conc": 1, "A.live": 1, "A.conc": 2}[part] {
 				sampled[part]++
 				c.Sample(s)
 			}
@@ -193,7 +222,19 @@ func run(c *core.Ctx) {
 		"B.seq probes of a banned source after unbanIterations+1 silent rounds", "B.seq class exception",
 		"B.seq class unlimited-rule", "B.seq class blocked-rule", "B.seq class disabled",
 		"B.conc bursts with exactly threshold-1 passes", "B.conc sources banned", "B.conc probes after unbanIterations+1 silent rounds",
+		"A.live sources banned through the started pipeline", "A.live wake-ups of the antispam maintenance goroutine (ticks)",
+		"A.live Maintenance() runs observed through the antispam logger",
+		"A.live probe admitted after unbanIterations+1 complete rounds in which the pipeline admitted nothing",
+		"A.live unban of the source observed in the antispam log before the probe",
+		"A.live early probes refused (fewer than unbanIterations rounds since the ban)",
+		"A.conc events compared with the sequential run", "A.conc records refused in both runs",
+		"A.conc json: cut events equal to the sequential run and to the prefix of their own record",
+		"A.conc raw: cut events equal to the sequential run and to the prefix of their own record",
+		"A.conc cri: cut events equal to the sequential run and to the prefix of their own record",
 	} {
+		if len(only) > 0 && !only[map[string]string{"A ": "A", "B.s": "Bseq", "B.c": "Bconc", "A.l": "Alive", "A.c": "Aconc"}[k[:3]]] {
+			continue
+		}
 		if c.Counter(k) == 0 {
 			c.Fatal("expected behaviour never observed: %q", k)
 		}
